@@ -27,7 +27,7 @@ def build_top(md):
     c0 = top.add_chain("A")
     seq = [("ALA", 1), ("GLY", 2), ("PRO", 2), ("SER", 7)]
     atoms = {"ALA": ["N", "CA", "C", "O", "CB", "H"], "GLY": ["N", "CA", "C", "O", "H"], "PRO": ["N", "CA", "C", "O", "CB", "CG"], "SER": ["N", "CA", "C", "O", "CB", "OG"]}
-    el = lambda n: {"N": E.nitrogen, "C": E.carbon, "O": E.oxygen, "H": E.hydrogen, "S": E.sulfur}[n[0]]
+    el = lambda n: {"N": E.nitrogen, "C": E.carbon, "O": E.oxygen, "H": E.hydrogen, "S": E.sulfur, "P": E.phosphorus}[n[0]]
     prev_c = None
     for rn, rs in seq:
         r = top.add_residue(rn, c0, rs, "SEGA")
@@ -48,6 +48,10 @@ def build_top(md):
     c2 = top.add_chain("C")
     r = top.add_residue("LIG", c2, 1, "SEGA")
     top.add_atom("C1", E.carbon, r); top.add_atom("CA", E.calcium, r); top.add_atom("O", E.oxygen, r)
+    # a nucleotide: primed atom names can only be written as quoted literals whose content ends with the other kind of quote
+    r = top.add_residue("DA", c2, 2, "SEGA")
+    for an in ["P", "O5'", "C5'", "C4'", "O4'", "H5''", "C5"]:
+        top.add_atom(an, el(an), r)
     return top
 
 
@@ -93,8 +97,8 @@ PREC = {"or": 0, "and": 1, "not": 2, "regex": 3, "cmp": 3, "kwbool": 4, "inlist"
 
 def gen_lit(rng, kind):
     if kind == "str":
-        s = rng.choice(["CA", "CB", "N", "O", "H1", "ALA", "GLY", "HOH", "NA", "SEGA", "ION", "C", "H", "A", "G", "LIG", "Ca", "X9"])
-        return ("q", s) if rng.random() < 0.35 else ("w", s)
+        s = rng.choice(["CA", "CB", "N", "O", "H1", "ALA", "GLY", "HOH", "NA", "SEGA", "ION", "C", "H", "A", "G", "LIG", "Ca", "X9", "O5'", "C5'", "C4'", "H5''", "C5", "DA", "P"])
+        return ("q", s) if ("'" in s or rng.random() < 0.35) else ("w", s)
     if kind == "int":
         return ("n", rng.choice([0, 1, 2, 3, 5, 7, 10, 11, 12, 25]))
     return rng.choice([("d", "1.5"), ("d", "12.5"), ("n", 14), ("d", "15.9"), ("n", 2), ("d", "22.99"), ("d", "40.1")])
@@ -113,7 +117,7 @@ def gen_leaf(rng):
         lo, hi = gen_lit(rng, kind), gen_lit(rng, kind)
         return ("range", g, lo, hi)
     if c < 0.65 and kind == "str":
-        return ("regex", g, rng.choice(["C.*", "C[A-B]", "H[1-2]", "[A-Z][A-Z]", "O", ".A", "N.*A", "C"]))
+        return ("regex", g, rng.choice(["C.*", "C[A-B]", "H[1-2]", "[A-Z][A-Z]", "O", ".A", "N.*A", "C", "C.'", "[CO]5'", "H5'.*"]))
     if c < 0.9:
         op = rng.choice(list(CMP))
         if kind == "str" and rng.random() < 0.8:
@@ -153,7 +157,7 @@ class Render:
             f = Fraction(v)
             return ["d:%d/%d" % (f.numerator, f.denominator)], [v]
         if k == "q":
-            q = self.rng.choice("'\"")
+            q = '"' if "'" in v else self.rng.choice("'\"")
             return ["s:" + hexs(v)], [q + v + q]
         return ["s:" + hexs(v)], [v]
 
@@ -179,7 +183,8 @@ class Render:
             t, s = self.lit(e[3]); T += t; S += s
         elif k == "regex":
             w = self.rng.choice(e[1])
-            T, S = ["k:" + w, "o:" + hexs("=~"), "s:" + hexs(e[2])], [w, "=~", "'" + e[2] + "'"]
+            q = '"' if "'" in e[2] else self.rng.choice("'\"")
+            T, S = ["k:" + w, "o:" + hexs("=~"), "s:" + hexs(e[2])], [w, "=~", q + e[2] + q]
         elif k == "cmp":
             t, s = self.operand(e[1][0]); T += t; S += s
             for o, op in zip(e[1][1:], e[2]):
